@@ -6,9 +6,10 @@
 #                                               (ALL__refactor_Cxx_N.diff: behaviour-preserving refactorings written by sub-agents)
 #   seeded/<Cxx>_<V>/patch.diff                 the check of Cxx must report a violation
 # Each fixture compiles and keeps the pinned test-suite green (confirmed when it was written). Prints one line per case; exit 1 if any case fails.
-WT=/tmp/selftest_wt
+WT=$(mktemp -d /tmp/selftest_wt.XXXXXX)      # one worktree per invocation: several selftests may run at the same time
+EV=$(mktemp -d /tmp/selftest_evidence.XXXXXX)
 F=${1:-}
-git -C /repo worktree remove --force $WT >/dev/null 2>&1
+rmdir $WT
 git -C /repo worktree add -f --detach $WT HEAD >/dev/null 2>&1 || { echo "cannot create worktree"; exit 3; }
 bad=0; n=0
 run_case() { # kind patch props...
@@ -17,7 +18,7 @@ run_case() { # kind patch props...
   if ! git -C $WT apply "$patch" 2>/dev/null; then echo "SKIP (does not apply)  $(basename $(dirname $patch))/$(basename $patch)"; bad=1; return; fi
   for pid in "$@"; do
     n=$((n+1))
-    out=$(MAMBA_REPO=$WT VERIF_EVIDENCE_DIR=/tmp/selftest_evidence /verif/check $pid --tier quick 2>&1); rc=$?
+    out=$(MAMBA_REPO=$WT VERIF_EVIDENCE_DIR=$EV /verif/check $pid --tier quick 2>&1); rc=$?
     viol=$(echo "$out" | grep -c "^VIOLATION")
     if [ $kind = fire ]; then
       if [ $rc -eq 1 ] && [ $viol -ge 1 ]; then echo "ok   fire    $pid  $(basename $patch)  [$(echo "$out" | grep '^VIOLATION' | head -1 | sed 's|.*/||; s|\.json||')]";
@@ -42,6 +43,6 @@ for d in /verif/seeded/*/; do
   run_case fire $d/patch.diff ${s%%_*}
 done
 git -C /repo worktree remove --force $WT >/dev/null 2>&1
-rm -rf /tmp/selftest_evidence
+rm -rf $EV
 echo "selftest: $n check runs, $([ $bad -eq 0 ] && echo all as expected || echo SOME NOT AS EXPECTED)"
 exit $bad
